@@ -123,6 +123,9 @@ type PullCase struct {
 	Attempts     []Attempt   `json:"attempts"`
 	// Via: "" Registry.Pull | "local" /api/pull non-streaming | "local-stream" /api/pull streaming
 	Via string `json:"via,omitempty"`
+	// Stutter: the script of the first attempt is played that many more times before the second one (a registry that
+	// keeps failing the same way: inside one /api/pull the caller's retry loop then sees up to Stutter+1 equal failures)
+	Stutter int `json:"stutter,omitempty"`
 }
 
 // --------------------------------------------------------------------------------------- model
@@ -580,6 +583,18 @@ func genAttempt(t *rapid.T, hasUpdate bool, prevVersion int) Attempt {
 }
 
 // GenPull draws a pull case. via selects the entry point the harness drives.
+// scripted: the number of attempts the script covers; scriptAt: the script of attempt idx.
+func (c *PullCase) scripted() int { return len(c.Attempts) + max(0, min(c.Stutter, 16)) }
+func (c *PullCase) scriptAt(idx int) *Attempt {
+	st := max(0, min(c.Stutter, 16))
+	if idx <= st {
+		idx = 0
+	} else {
+		idx -= st
+	}
+	return &c.Attempts[idx]
+}
+
 func GenPull(t *rapid.T, vias []string) PullCase {
 	var c PullCase
 	c.Via = rapid.SampledFrom(vias).Draw(t, "via")
@@ -606,6 +621,9 @@ func GenPull(t *rapid.T, vias []string) PullCase {
 	}
 	c.MaxStreams = rapid.IntRange(1, 4).Draw(t, "maxstreams")
 	c.ReadTimeoutS = rapid.SampledFrom([]int{0, 5, 30, 30}).Draw(t, "readtimeout")
+	if strings.HasPrefix(c.Via, "local") {
+		c.Stutter = rapid.SampledFrom([]int{0, 0, 0, 0, 2, 7, 8, 9, 12}).Draw(t, "stutter")
+	}
 	na := rapid.IntRange(1, 3).Draw(t, "nattempts")
 	ver := 0
 	for i := 0; i < na; i++ {
